@@ -2,7 +2,7 @@
 
 use super::good_lp::{collect_good_lp_duals, solve_with_good_lp};
 use super::{LpSolution, SolverError, find_invalid_variables};
-use crate::math::VariableType;
+use crate::math::{OptimizationType, VariableType};
 use crate::transformers::LinearModel;
 use ::clarabel::solver::SolverStatus;
 use ::good_lp::SolutionWithDual;
@@ -36,6 +36,30 @@ use ::good_lp::SolutionWithDual;
 /// let solution = solve_real_lp_problem_clarabel(&model).unwrap();
 /// ```
 pub fn solve_real_lp_problem_clarabel(lp: &LinearModel) -> Result<LpSolution<f64>, SolverError> {
+    match solve_with_clarabel(lp) {
+        // A dual-infeasible status only proves an improving ray. The model is
+        // unbounded only if it also has a feasible point, which a second solve
+        // without the objective decides (such a solve cannot be dual infeasible).
+        Err(SolverError::Unbounded) if *lp.optimization_type() != OptimizationType::Satisfy => {
+            let (objective, _, _, constraints, variables, domain) = lp.clone().into_parts();
+            let feasibility = LinearModel::new_from_parts(
+                vec![0.0; objective.len()],
+                OptimizationType::Satisfy,
+                0.0,
+                constraints,
+                variables,
+                domain,
+            );
+            match solve_with_clarabel(&feasibility) {
+                Err(SolverError::Infeasible) => Err(SolverError::Infeasible),
+                _ => Err(SolverError::Unbounded),
+            }
+        }
+        result => result,
+    }
+}
+
+fn solve_with_clarabel(lp: &LinearModel) -> Result<LpSolution<f64>, SolverError> {
     let domain = lp.domain();
     let invalid_variables = find_invalid_variables(domain, |var| {
         matches!(
